@@ -61,6 +61,7 @@ pub fn lookup(name: &str) -> Option<(&'static str, ScenFn)> {
         "amp" => (AMP_RULE, amp as ScenFn),
         "close" => (CLOSE_RULE, close as ScenFn),
         "determ" => (DETERM_RULE, determ as ScenFn),
+        "migrate" => (MIGRATE_RULE, migrate as ScenFn),
         _ => return None,
     })
 }
@@ -250,11 +251,13 @@ pub fn xfer(seed: u64, out: &mut Outcome) {
         sim.net.drop_permille = 0;
         sim.net.corrupt_permille = 0;
         sim.net.truncate_permille = 0;
-        let t_end = sim.now + 20_000_000_000;
+        let t_end = sim.now + 10_000_000_000;
+        sim.time_cap = Some(t_end);
         let _ = sim.run_until(t_end, 100_000, |sim| {
             w.tick(sim);
             false
         });
+        sim.time_cap = None;
         if let Some(sch) = w.ch[SERVER] {
             for (node, ch) in [(CLIENT, cch), (SERVER, sch)] {
                 let sn = sim.snap(node, ch);
@@ -748,4 +751,183 @@ pub fn determ(seed: u64, out: &mut Outcome) {
     if out.samples.len() < 2 {
         out.samples.push(format!("seed {seed}: reference trace {} records, e.g. {:?}", ta.len(), ta.iter().skip(ta.len() / 2).take(4).collect::<Vec<_>>()));
     }
+}
+
+pub const MIGRATE_RULE: &str = "one execution = handshake + transfer in both directions; at random steps the client's address changes (port-only rebinding or a different IP, once or twice, possibly overlapping) with or without local_address_changed(); an attacker replays genuine client datagrams (and genuine server datagrams towards the client) from third addresses at random times; server migration enabled or disabled; lossy network. Oracles (C15): with migration enabled the server follows a client that keeps sending from the new address, validates it and the workload completes; whenever the server's path points to an address the client is not at, it returns to the client's address within 3 PTO (+1 RTT); the anti-amplification gate holds on every unvalidated path (C07 oracle); a client never changes its path; a server with migration disabled never changes its path; non-trivial = at least one address change or replay happened after the handshake";
+
+pub fn migrate(seed: u64, out: &mut Outcome) {
+    use std::net::{IpAddr, Ipv6Addr, SocketAddr};
+    let mut rng = Rng::new(seed ^ 0x319a);
+    let (mut tc, lim_c) = random_transport(&mut rng);
+    let (mut ts, lim_s) = random_transport(&mut rng);
+    for t in [&mut tc, &mut ts] {
+        t.max_idle_timeout(Some(IdleTimeout::try_from(Duration::from_secs(30)).unwrap()));
+    }
+    let migration_enabled = !rng.chance(1, 4);
+    let clock = SimClock(Arc::new(std::sync::Mutex::new(std::time::UNIX_EPOCH + Duration::from_secs(1_700_000_000))));
+    let mut scfg = server_config(seed, ts, &clock);
+    scfg.migration(migration_enabled);
+    let server = quinn_proto::Endpoint::new(Arc::new(endpoint_config(seed ^ 1, 8, None)), Some(Arc::new(scfg)), true);
+    let client = quinn_proto::Endpoint::new(Arc::new(endpoint_config(seed ^ 2, 8, None)), None, true);
+    let mut sim = Sim::new(seed, client, server, clock);
+    let ccfg = client_config(seed, tc);
+    sim.model_trace = true;
+    sim.keep_history = true;
+    sim.net = random_net(&mut rng);
+    sim.net.path_mtu = sim.net.path_mtu.max(1400);
+    sim.net.drop_permille = sim.net.drop_permille.min(100);
+    sim.net.replay_permille = 0;
+    sim.net.corrupt_permille = 0;
+    sim.net.truncate_permille = 0;
+    let mut w = Workload::new(seed);
+    w.sides[CLIENT].plans = Workload::random_plans(&mut rng, 3, 300_000);
+    w.sides[SERVER].plans = Workload::random_plans(&mut rng, 2, 100_000);
+    let di = |d: quinn_proto::Dir| if d == quinn_proto::Dir::Bi { 0 } else { 1 };
+    w.sides[CLIENT].plans.retain(|p| lim_s[di(p.dir)] > 0);
+    w.sides[SERVER].plans.retain(|p| lim_c[di(p.dir)] > 0);
+    // keep-alives make the client "keep sending from the new address" even when it has nothing to write
+    let cch = sim.connect(ccfg);
+    w.ch[CLIENT] = Some(cch);
+    let n_moves = if migration_enabled { rng.below(3) } else { rng.below(2) };
+    let mut move_steps: Vec<u64> = (0..n_moves).map(|_| rng.range(30, 400)).collect();
+    move_steps.sort();
+    let n_replays = rng.below(6);
+    let mut replay_steps: Vec<u64> = (0..n_replays).map(|_| rng.range(20, 500)).collect();
+    replay_steps.sort();
+    let mut moved = 0u64;
+    let mut replays = 0u64;
+    let mut acted_after_hs = false;
+    // how long has the server's path pointed somewhere the client is not?
+    let mut wrong_since: Option<u64> = None;
+    let genuine_client_addrs = std::cell::RefCell::new(vec![sim.nodes[CLIENT].addr]);
+    let end = sim.run_until(600_000_000_000, 400_000, |sim| {
+        if w.ch[SERVER].is_none() {
+            if let Some(&ch) = sim.nodes[SERVER].accepted.first() {
+                w.ch[SERVER] = Some(ch);
+            }
+        }
+        w.tick(sim);
+        let hs_done = sim.nodes[CLIENT].conns[&cch].obs.confirmed;
+        if hs_done && move_steps.first().is_some_and(|s| sim.steps >= *s) {
+            move_steps.remove(0);
+            moved += 1;
+            acted_after_hs = true;
+            let old = sim.nodes[CLIENT].addr;
+            let new = if sim.rng.chance(1, 2) {
+                SocketAddr::new(old.ip(), old.port() + 1 + moved as u16)
+            } else {
+                SocketAddr::new(IpAddr::V6(Ipv6Addr::new(0, 0, 0, 0, 0, 0, 0, 2 + moved as u16)), old.port())
+            };
+            sim.nodes[CLIENT].addr = new;
+            genuine_client_addrs.borrow_mut().push(new);
+            if sim.rng.chance(1, 2) {
+                sim.conn(CLIENT, cch).local_address_changed();
+            } else {
+                // the client must keep sending for the server to notice: a ping stands for ongoing traffic
+                sim.conn(CLIENT, cch).ping();
+            }
+        }
+        if hs_done && replay_steps.first().is_some_and(|s| sim.steps >= *s) && !sim.history.is_empty() {
+            replay_steps.remove(0);
+            replays += 1;
+            acted_after_hs = true;
+            // replay one of the most recent genuine datagrams from a third address
+            let n = sim.history.len();
+            let i = n - 1 - sim.rng.below(n.min(8) as u64) as usize;
+            let mut d = sim.history[i].clone();
+            d.from = SocketAddr::new(IpAddr::V6(Ipv6Addr::new(0, 0, 0, 0, 0, 0, 9, 9)), 6000 + replays as u16);
+            d.at = sim.now + sim.rng.below(2_000_000);
+            d.origin = usize::MAX;
+            sim.push_wire(d);
+        }
+        // ---- oracles evaluated continuously
+        if let Some(sch) = w.ch[SERVER] {
+            let ss = sim.snap(SERVER, sch);
+            let cs = sim.snap(CLIENT, cch);
+            let caddr = sim.nodes[CLIENT].addr;
+            if cs.path.remote != sim.nodes[SERVER].addr {
+                sim.fail("path-client-changed-its-path", format!("client path is {} but the server is at {}", cs.path.remote, sim.nodes[SERVER].addr));
+            }
+            if !migration_enabled && ss.path.remote != genuine_client_addrs.borrow()[0] {
+                sim.fail("path-server-migrated-although-disabled", format!("server path is {}", ss.path.remote));
+            }
+            if ss.state == "established" && cs.state == "established" {
+                let genuine = genuine_client_addrs.borrow().contains(&ss.path.remote);
+                if ss.path.remote != caddr && !genuine {
+                    // pointing at an attacker's address: must revert within 3 PTO (+ an RTT of slack)
+                    let since = *wrong_since.get_or_insert(sim.now);
+                    let pto = ss.pto[2].as_nanos() as u64;
+                    let bound = 3 * pto.max(cs.pto[2].as_nanos() as u64) * 2 + 4 * (sim.net.latency_ns + sim.net.jitter_ns) + 50_000_000;
+                    if sim.now > since + bound {
+                        sim.fail("migration-to-spoofed-address-not-reverted", format!("server path has been {} (client is at {caddr}) since {since}, now {}, bound {bound}", ss.path.remote, sim.now));
+                        wrong_since = Some(sim.now + 1_000_000_000_000);
+                    }
+                } else {
+                    wrong_since = None;
+                }
+            }
+        }
+        if w.complete() && w.ch[SERVER].is_some() {
+            // nothing left to transfer: pending address changes / replays are dropped
+            move_steps.clear();
+            replay_steps.clear();
+            return true;
+        }
+        false
+    });
+    if end == RunEnd::Done {
+        // let an address change made at the very end take effect (the client's ping / next packets reach the server)
+        let t_end = sim.now + 3_000_000_000;
+        sim.time_cap = Some(t_end);
+        let _ = sim.run_until(t_end, 100_000, |sim| {
+            w.tick(sim);
+            false
+        });
+        sim.time_cap = None;
+    }
+    let connected = sim.nodes[CLIENT].conns[&cch].obs.connected;
+    // with migration disabled a moved client legitimately loses the connection
+    let expect_complete = connected && (migration_enabled || moved == 0);
+    if expect_complete {
+        let lost_c = sim.nodes[CLIENT].conns[&cch].obs.lost.clone();
+        if !lost_c.is_empty() {
+            sim.fail("migration-connection-lost", format!("client lost the connection: {lost_c:?} (moves {moved}, replays {replays})"));
+        } else {
+            w.final_check(&mut sim, true);
+            // the server ends up on the client's current address, validated
+            if let Some(sch) = w.ch[SERVER] {
+                let ss = sim.snap(SERVER, sch);
+                if moved > 0 && ss.state == "established" && (ss.path.remote != sim.nodes[CLIENT].addr) {
+                    sim.fail("migration-not-followed", format!("server path {} != client address {} at the end", ss.path.remote, sim.nodes[CLIENT].addr));
+                }
+            }
+        }
+    } else {
+        w.final_check(&mut sim, false);
+    }
+    out.runs += 1;
+    out.evaluations += sim.steps;
+    if acted_after_hs {
+        out.nontrivial += 1;
+    }
+    out.count(&format!("end:{end:?}"), 1);
+    out.count("address-changes", moved);
+    out.count("replays-from-third-addresses", replays);
+    out.count(if migration_enabled { "migration-enabled" } else { "migration-disabled" }, 1);
+    if out.samples.len() < 3 {
+        out.samples.push(format!("seed {seed}: migration_enabled {migration_enabled}, moves {moved}, replays {replays}, client addresses {:?}, end {end:?} at {} ms", genuine_client_addrs.borrow(), sim.now / 1_000_000));
+    }
+    if std::env::var("VERIF_SIM_VERBOSE").is_ok() {
+        for r in sim.trace.iter().filter(|r| !matches!(r, Rec::Tx { .. })) {
+            eprintln!("{r:?}");
+        }
+        for node in 0..2 {
+            eprintln!("app node {node}: plans {:?} next {} send {:?} recv {:?}", w.sides[node].plans, w.sides[node].next_plan, w.sides[node].send, w.sides[node].recv.iter().map(|(k, v)| (*k, v.bytes, v.fin, v.unordered)).collect::<Vec<_>>());
+        }
+    }
+    // only C15/C07/C01 relevant keys matter here; everything is reported, routing is by key
+    for f in sim.fails.drain(..) {
+        out.fails.push(format!("{f} seed={seed}"));
+    }
+    out.take_trace(seed, &mut sim);
 }
